@@ -4,28 +4,67 @@ import Proofs.Lemmas.C08FragTop
 
 `Parse.parse` (the line-by-line model of `parse::try_parse`) and `ESG.esValid` (the ES2025 Pattern
 grammar recognizer written from ECMA-262) are two independent recursive descents.  Here they are
-PROVED to agree on a lexically defined fragment of the pattern language, in both modes.
+PROVED to agree on a lexically defined fragment of the pattern language, in both modes:
+
+    inFrag pat → withinLimits pat → ((Parse.parse pat fl).isOk ↔ esValid (flagsText fl) pat)
+
+* `C08_fragment_u` (flags `u` or `v`): ordinary characters, `.`, `^`, `$`, `|`, capturing groups,
+  `(?:…)`, the four look-arounds, the quantifiers `* + ? {n} {n,} {n,m}` with optional `?`
+  (reversed bounds, also saturated ones; `{` `}` `]` are errors; look-arounds are not quantifiable),
+  all escapes outside classes except `\p \P \k` (class escapes, `\b \B`, control escapes, `\cX`, `\0`,
+  `\xHH`, `\uHHHH` with surrogate pairs, `\u{…}`, identity escapes of syntax characters, decimal
+  back-references with the "at most the number of groups" early error), and — without `v` —
+  character classes without `\p \P` (ranges, class escapes, `\b`, `\-`, the out-of-order and
+  class-in-range errors).
+* `C08_fragment_legacy` (neither `u` nor `v`, Annex B): the same token set without `\` and `[`
+  (lone `{` `}` `]` are literals, look-aheads are quantifiable, `InvalidBracedQuantifier`).
+
+Not covered: named groups and `\k`, modifier groups `(?ims-ims:…)`, `\p{…}`, classes under `v`,
+escapes and classes in Annex B mode, lone surrogates under `u` / supplementary code points without `u`.
+
+Definitions (all decidable, all lexical; `Proofs/Lemmas/C08FragDefs.lean`):
+* `fragCore e k` = `fragGo e k false`, a two-mode scanner (`e`: escapes admitted, `k`: classes
+  admitted); `parenOk`, `escOk` say what may follow `(` and `\`.
+* `withinLimits pat` = `md pat ≤ 255 ∧ opens pat ≤ 65535 ∧ quants pat ≤ 65535`: `md` the nesting depth
+  of parentheses (escape- and class-aware; the crate's `MAX_NESTING_DEPTH = 256` counts the top-level
+  disjunction), `opens` the number of `(` (at least the number of capture groups, limit 65535),
+  `quants` the number of characters `* + ? {` (at least the number of quantifiers, limit 65535).
+  Under these no `Error::…limit` of the crate is reachable.
+* `flagsText fl`: `i`, `m`, `s`, then `v` if `unicode_sets`, else `u` if `unicode`.
+
+Method (`Proofs/Lemmas/C08Frag{Num,Esc,Cls,Sim,Top}.lean`): a simulation of the grammar recognizer
+(`disj alt body term quantified atom`) by the crate's descent (`disjLoop termLoop consumeDisjunction
+consumeAtom`), by induction on the recognizer's fuel, with the lexical pieces (quantifiers, escapes,
+classes, the capture-group pre-scan) related separately.  The two places where the recognizers are
+NOT step-for-step aligned are part of the simulation relation: the crate fails on a quantifier after
+an assertion where the grammar fails one step later (`TStep`), and the crate checks a decimal escape
+against the pre-scan count at once where the grammar checks at the end (`Poisoned`).
+No string on which the two recognizers disagree was found.
 -/
 namespace Regress.C08Frag
 open Regress Regress.IR Regress.Parse Regress.ESG
 
-/-- The fragment, UnicodeMode: `fragCore true` — no `[`; a `\` is followed by anything but `p` `P`
-(property escapes), `k` (named back-references), `1`–`9` (decimal back-references); every unescaped `(?`
-is followed by `:`, `=`, `!`, `<=`, `<!`, or by a character other than `<` `i` `m` `s` `-`, or by the
-end of the pattern (the last two are errors for both recognizers) — over Unicode scalar values (what a
-Rust `&str` can contain). -/
-def inFragU (pat : List Nat) : Bool :=
-  fragCore true pat &&
+/-- The fragment, UnicodeMode (`v`: the flag `v` is set): `fragCore true (!v)` —
+* a `\\` outside a class is followed by anything but `p` `P` (property escapes) and `k` (named
+  back-references);
+* without `v`, character classes `[…]` (up to the first unescaped `]`) in which no `\\p` / `\\P` occurs;
+  with `v`, no `[` at all;
+* every `(?` (unescaped, outside classes) is followed by `:`, `=`, `!`, `<=`, `<!`, or by a character
+  other than `<` `i` `m` `s` `-`, or by the end of the pattern (the last two are errors for both
+  recognizers), i.e. no named groups, no modifiers;
+over Unicode scalar values (what a Rust `&str` can contain). -/
+def inFragU (v : Bool) (pat : List Nat) : Bool :=
+  fragCore true (!v) pat &&
     pat.all fun c => decide (c ≤ 0x10FFFF) && !(decide (0xD800 ≤ c) && decide (c ≤ 0xDFFF))
 
-/-- The fragment, Annex B mode: `fragCore false` (as above, and no `\` at all) over the Basic
-Multilingual Plane. -/
+/-- The fragment, Annex B mode: `fragCore false false` (as above, no `\\` and no `[` at all) over the
+Basic Multilingual Plane. -/
 def inFragLegacy (pat : List Nat) : Bool :=
-  fragCore false pat && pat.all fun c => decide (c < 0x10000)
+  fragCore false false pat && pat.all fun c => decide (c < 0x10000)
 
 /-- **C08 on the fragment, UnicodeMode** (`u` or `v`). -/
 theorem C08_fragment_u (pat : List Nat) (fl : Flags) (hu : (fl.unicode || fl.unicodeSets) = true)
-    (hf : inFragU pat = true) (hl : withinLimits pat = true) :
+    (hf : inFragU fl.unicodeSets pat = true) (hl : withinLimits pat = true) :
     (Parse.parse pat fl).isOk = true ↔ esValid (flagsText fl) pat = true := by
   simp only [inFragU, Bool.and_eq_true, List.all_eq_true, decide_eq_true_eq, Bool.not_eq_true',
     Bool.and_eq_false_iff, decide_eq_false_iff_not] at hf
@@ -33,7 +72,7 @@ theorem C08_fragment_u (pat : List Nat) (fl : Flags) (hu : (fl.unicode || fl.uni
   have hb : Bnd pat := fun c hc => (hall c hc).1
   have hns : ∀ c ∈ pat, ¬ (0xD800 ≤ c ∧ c ≤ 0xDFFF) := fun c hc h => by
     rcases (hall c hc).2 with h' | h' <;> omega
-  obtain ⟨g, hp⟩ := parse_isOk_iff true pat fl hb hfr
+  have hp := parse_isOk_iff true (!fl.unicodeSets) pat fl hb hfr (by simp)
   have heff : (effFlags fl).unicode = true := by
     unfold effFlags
     cases h1 : fl.unicodeSets <;> simp_all
@@ -42,9 +81,15 @@ theorem C08_fragment_u (pat : List Nat) (fl : Flags) (hu : (fl.unicode || fl.uni
     have h2 := hns c hc
     simp only [Parse.isChar, Bool.or_eq_true, Bool.and_eq_true, decide_eq_true_eq]
     omega
-  obtain ⟨h1, _, h3⟩ := frag_core true
-    { u := true, v := fl.unicodeSets, n := true, feat25 := true, t := tabs } pat (effFlags fl) g
-    (by rw [heff]) (fun _ => heff) (fun _ => hch) hfr hl
+  have heffv : (effFlags fl).unicodeSets = fl.unicodeSets := by
+    unfold effFlags; split <;> rfl
+  obtain ⟨h1, _, h3⟩ := frag_core true (!fl.unicodeSets)
+    { u := true, v := fl.unicodeSets, n := true, feat25 := true, t := tabs } pat (effFlags fl)
+    (by rw [heff]) (fun _ => heff)
+    (fun h => by
+      have hv : fl.unicodeSets = false := by simpa using h
+      exact ⟨rfl, heff, hv, by rw [heffv, hv]⟩)
+    (fun _ => hch) hfr hl
   rw [hp, h1, esValid_eq]
   have huv : ((fl.unicode && !fl.unicodeSets) || fl.unicodeSets) = true := by
     cases h1 : fl.unicodeSets <;> simp_all
@@ -62,12 +107,12 @@ theorem C08_fragment_legacy (pat : List Nat) (fl : Flags) (hu : fl.unicode = fal
   simp only [inFragLegacy, Bool.and_eq_true, List.all_eq_true, decide_eq_true_eq] at hf
   obtain ⟨hfr, hall⟩ := hf
   have hb : Bnd pat := fun c hc => by have := hall c hc; omega
-  obtain ⟨g, hp⟩ := parse_isOk_iff false pat fl hb hfr
+  have hp := parse_isOk_iff false false pat fl hb hfr (fun h => by cases h)
   have heff : (effFlags fl).unicode = false := by
     unfold effFlags; simp [hv, hu]
-  obtain ⟨h1, h2, h3⟩ := frag_core false
-    { u := false, v := false, n := false, feat25 := true, t := tabs } pat (effFlags fl) g
-    (by rw [heff]) (fun h => by cases h) (fun h => by cases h) hfr hl
+  obtain ⟨h1, h2, h3⟩ := frag_core false false
+    { u := false, v := false, n := false, feat25 := true, t := tabs } pat (effFlags fl)
+    (by rw [heff]) (fun h => by cases h) (fun h => by cases h) (fun h => by cases h) hfr hl
   rw [hp, h1, esValid_eq, hu, hv]
   unfold esValidCore
   simp only [Bool.false_and, Bool.or_self, Bool.false_eq_true, if_false, toUnits_id pat hall]
@@ -90,7 +135,7 @@ local macro "pat!" s:str : term => do
   `(([$(cs.toArray),*] : List Nat))
 
 def AgreesU (p : List Nat) (b : Bool) : Prop :=
-  inFragU p = true ∧ withinLimits p = true ∧ (Parse.parse p { unicode := true }).isOk = b ∧
+  inFragU false p = true ∧ withinLimits p = true ∧ (Parse.parse p { unicode := true }).isOk = b ∧
     esValid (flagsText { unicode := true }) p = b
 
 def AgreesL (p : List Nat) (b : Bool) : Prop :=
@@ -98,7 +143,7 @@ def AgreesL (p : List Nat) (b : Bool) : Prop :=
     esValid (flagsText {}) p = b
 
 theorem agreesU_of (p : List Nat) (b : Bool)
-    (h : (inFragU p && withinLimits p && ((Parse.parse p { unicode := true }).isOk == b)) = true) :
+    (h : (inFragU false p && withinLimits p && ((Parse.parse p { unicode := true }).isOk == b)) = true) :
     AgreesU p b := by
   simp only [Bool.and_eq_true, beq_iff_eq] at h
   obtain ⟨⟨h1, h2⟩, h3⟩ := h
@@ -170,6 +215,35 @@ example : AgreesU (pat! "\\x41\\u0041\\u{41}\\u{10FFFF}\\uD83D\\uDE00\\uD83Dx") 
 example : AgreesU (pat! "\\^\\$\\\\\\.\\*\\+\\?\\(\\)\\[\\]\\{\\}\\|\\/") true := agreesU_of _ _ (by decide +kernel)
 example : AgreesU (pat! "(\\))\\(*") true := agreesU_of _ _ (by decide +kernel)
 example : AgreesU (pat! "\\d{2,3}?(?:\\w+)") true := agreesU_of _ _ (by decide +kernel)
+example : AgreesU (pat! "(a)\\1") true := agreesU_of _ _ (by decide +kernel)          -- back-references
+example : AgreesU (pat! "\\2(a)(b)\\1") true := agreesU_of _ _ (by decide +kernel)    -- also forward ones
+example : AgreesU (pat! "(a)(?:b)(?=(c))\\2\\02") false := agreesU_of _ _ (by decide +kernel)
+example : AgreesU (pat! "(((((((((((a)))))))))))\\11") true := agreesU_of _ _ (by decide +kernel)
+-- UnicodeMode, back-references beyond the number of groups (`\(` and `(?:` do not count)
+example : AgreesU (pat! "\\1") false := agreesU_of _ _ (by decide +kernel)
+example : AgreesU (pat! "(a)\\2") false := agreesU_of _ _ (by decide +kernel)
+example : AgreesU (pat! "\\2(a)(?:b)\\(c") false := agreesU_of _ _ (by decide +kernel)
+example : AgreesU (pat! "(((((((((((a)))))))))))\\12") false := agreesU_of _ _ (by decide +kernel)
+example : AgreesU (pat! "(a)\\99999999999999999999999") false := agreesU_of _ _ (by decide +kernel)
+example : AgreesU (pat! "(a)\\1*(b)\\3|c") false := agreesU_of _ _ (by decide +kernel)
+-- UnicodeMode (without `v`), character classes: accepted
+example : AgreesU (pat! "[abc][^abc][][^]") true := agreesU_of _ _ (by decide +kernel)
+example : AgreesU (pat! "[a-z0-9_-]+[-a][a-]") true := agreesU_of _ _ (by decide +kernel)
+example : AgreesU (pat! "[\\d\\w-][\\b\\-\\n\\x41-\\u{5A}\\]]") true := agreesU_of _ _ (by decide +kernel)
+example : AgreesU (pat! "([(])[)]\\1[[|*+?{}^$.]") true := agreesU_of _ _ (by decide +kernel)
+-- character classes: rejected
+example : AgreesU (pat! "[a") false := agreesU_of _ _ (by decide +kernel)              -- unterminated
+example : AgreesU (pat! "[b-a]") false := agreesU_of _ _ (by decide +kernel)           -- reversed range
+example : AgreesU (pat! "[\\d-x]") false := agreesU_of _ _ (by decide +kernel)         -- class escape in a range
+example : AgreesU (pat! "[a-\\w]") false := agreesU_of _ _ (by decide +kernel)
+example : AgreesU (pat! "[\\c]") false := agreesU_of _ _ (by decide +kernel)
+example : AgreesU (pat! "[\\k]") false := agreesU_of _ _ (by decide +kernel)
+example : AgreesU (pat! "[\\1]") false := agreesU_of _ _ (by decide +kernel)
+example : AgreesU (pat! "[\\B]") false := agreesU_of _ _ (by decide +kernel)
+example : AgreesU (pat! "[a]]") false := agreesU_of _ _ (by decide +kernel)            -- lone `]` under `u`
+example : AgreesU (pat! "([)]") false := agreesU_of _ _ (by decide +kernel)            -- the `)` is in the class
+example : AgreesU (pat! "([)])") true := agreesU_of _ _ (by decide +kernel)
+example : AgreesU (pat! "[(]\\1") false := agreesU_of _ _ (by decide +kernel)          -- the `(` is in the class
 -- UnicodeMode, escapes: rejected
 example : AgreesU (pat! "\\") false := agreesU_of _ _ (by decide +kernel)              -- incomplete
 example : AgreesU (pat! "\\a") false := agreesU_of _ _ (by decide +kernel)             -- no identity escape of letters
@@ -207,6 +281,17 @@ example : AgreesL (pat! "a{3,2}?") false := agreesL_of _ _ (by decide +kernel)
 example : AgreesL (pat! "(a") false := agreesL_of _ _ (by decide +kernel)
 example : AgreesL (pat! "a)") false := agreesL_of _ _ (by decide +kernel)
 example : AgreesL (pat! "+") false := agreesL_of _ _ (by decide +kernel)
+
+-- the flag `v` (no classes): the theorem applies as well
+example : esValid (flagsText { unicodeSets := true }) (pat! "(a)\\1(?<=b){2,3}") = false := by
+  have := C08_fragment_u (pat! "(a)\\1(?<=b){2,3}") { unicodeSets := true } rfl (by decide +kernel) (by decide +kernel)
+  have hp : (Parse.parse (pat! "(a)\\1(?<=b){2,3}") { unicodeSets := true }).isOk = false := by decide +kernel
+  cases he : esValid (flagsText { unicodeSets := true }) (pat! "(a)\\1(?<=b){2,3}") with
+  | false => rfl
+  | true => rw [this.2 he] at hp; cases hp
+example : esValid (flagsText { unicodeSets := true, icase := true }) (pat! "(a)\\1(?<=b)c{2,3}") = true :=
+  (C08_fragment_u (pat! "(a)\\1(?<=b)c{2,3}") { unicodeSets := true, icase := true } rfl (by decide +kernel)
+    (by decide +kernel)).1 (by decide +kernel)
 
 /-- The limits are not vacuous either: 255 nested groups are within them (and parse), 256 are not. -/
 example : withinLimits (List.replicate 255 0x28 ++ List.replicate 255 0x29) = true ∧
